@@ -79,6 +79,14 @@ def run_config(chk, config):
                 is_hidden = (vname == "Hidden")
                 want = [1, 1 if is_hidden else 0, 0, 0, 0, 0]
                 got = list(bits[:6])
+                if any(b is None for b in got):
+                    # assembled arithmetically (64*msb + 2*h + m): read the six low binary digits off the number
+                    got = []
+                    cur = o1.lin
+                    for _k in range(6):
+                        cur, d_ = eng.divmod_const(st, cur, 2)
+                        lo_d, hi_d = eng.bounds(st, d_)
+                        got.append(lo_d if (lo_d is not None and lo_d == hi_d) else None)
                 good = got == want
                 why = "flag bits M,H,reserved of the first octet are %s, expected %s" % (got, want)
         chk.oblig(good, key, "AVP::write(%s): %s" % (vname, why),
